@@ -1,5 +1,6 @@
 import Cuke.Lemmas.NormalizeInsert
 import Cuke.Lemmas.NormalizeOrder
+import Cuke.Lemmas.NormalizeSeq
 import Cuke.Model.Monitors
 /-!
 # C11 — Normalize reorders any contract-abiding stream losslessly into sequential order
@@ -17,7 +18,7 @@ T3 per-attempt order, T5 pass-through of sequential input) are evaluated by exec
 real writer's output; their proofs are not done yet — see `C11_order_partial`.
 -/
 namespace Cuke.C11
-open Cuke List Cuke.NormL
+open Cuke List Cuke.NormL Cuke.Mon
 
 /-- all features still queued have received their Finished bracket -/
 def allClosed (n : Norm) : Bool := n.feats.all (fun fq => fq.2.fin == .pending)
@@ -389,6 +390,155 @@ theorem proj_eq_monitor (κ : AKey) (l : List Ev) : proj κ l = Cuke.Mon.projAtt
   funext e
   cases e <;> simp [evKey?]
 
+/-! ## T2 — the forwarded stream is sequential -/
+
+/-- the clause of the Runner contract that T2 needs on top of `SafeRun`: an attempt's first event is its
+    `Started`, which is not repeated while the attempt is queued (stated, like `SafeRun`, relative to the
+    normalizer's own bookkeeping; evaluated on every generated contract stream by `mon.c11`) -/
+def StartsRun : Norm → List Ev → Bool
+  | _, [] => true
+  | n, e :: es =>
+    startsRightN n e &&
+    match n.handle e with
+    | some (n', _) => StartsRun n' es
+    | none => false
+
+/-- **Step (sequential)**: while run-Finished has not been received, what one `handle_event` forwards is
+    accepted by the strict sequential automaton from the state the queue shows before, and leads to the
+    state the queue shows afterwards. -/
+theorem handle_seq (n n' : Norm) (e : Ev) (out : List Ev) (hok : NormOk n) (hw : featsWF n.feats = true)
+    (hno : n.fin = .no) (hne : e ≠ .finished) (hs : safeStep n e = true) (hc : startsRightN n e = true)
+    (h : n.handle e = some (n', out)) :
+    seqRun (featsSt n.feats) out = some (featsSt n'.feats) ∧ featsWF n'.feats = true ∧ NormOk n' ∧ n'.fin = .no := by
+  unfold Norm.handle at h
+  have hem' : (n.fin == Fin.emitted) = false := by rw [hno]; rfl
+  simp only [hem', Bool.false_eq_true, if_false] at h
+  simp only [safeStep, hem', Bool.false_or, Bool.and_eq_true] at hs
+  cases hi : n.insert e with
+  | none => simp [hi] at h
+  | some n1 =>
+    simp only [hi] at h
+    obtain ⟨_, hok1, hfin1⟩ := insert_perm n n1 e hok hs.1 hi
+    obtain ⟨hst1, hw1⟩ := insert_seq n n1 e hs.1 hc hw hi
+    obtain ⟨_, hok2⟩ := emitFeats_eq n1.feats hok1
+    obtain ⟨hrun, hw2⟩ := emitFeats_seq n1.feats hok1 hw1
+    have hf' : (e == Ev.finished) = false := by simpa using hne
+    simp only [hf', Bool.false_eq_true, if_false] at hfin1
+    have hn1p : (n1.fin == Fin.pending) = false := by rw [hfin1, hno]; rfl
+    simp only [hn1p, Bool.false_eq_true, if_false, Option.some.injEq, Prod.mk.injEq] at h
+    obtain ⟨rfl, rfl⟩ := h
+    refine ⟨?_, hw2, hok2, by simp [hfin1, hno]⟩
+    rw [seqRun_append, ← hst1]
+    have hdirect : seqRun (featsSt n1.feats) (if e.isRunLevel then [e] else []) = some (featsSt n1.feats) := by
+      have hnf : (featsSt n1.feats).finished = false := by
+        cases hfs : n1.feats with
+        | nil => rfl
+        | cons fq rest =>
+          simp only [featsSt, featSt]
+          split
+          · rfl
+          · cases hit : fq.2.items with
+            | nil => rfl
+            | cons it rest2 =>
+              cases it with
+              | att a => rfl
+              | rule r q => simp only [itemsSt, ruleSt]; split <;> rfl
+      split
+      · rename_i hr
+        rw [seqRun_cons]
+        have : seqStep (featsSt n1.feats) e = some (featsSt n1.feats) := by
+          cases e <;> simp_all [Ev.isRunLevel, seqStep]
+        rw [this]; rfl
+      · rfl
+    rw [hdirect]
+    exact hrun
+
+/-- along a run that has not seen run-Finished: the automaton state after everything forwarded is the one
+    the queue shows -/
+theorem norm_T2_from (n : Norm) (evs : List Ev) (hok : NormOk n) (hw : featsWF n.feats = true) (hno : n.fin = .no)
+    (hnf : ∀ e ∈ evs, e ≠ Ev.finished) (hs : SafeRun n evs = true) (hc : StartsRun n evs = true) :
+    ∃ n' outs, normRun n evs = some (n', outs) ∧ seqRun (featsSt n.feats) outs.flatten = some (featsSt n'.feats) ∧
+      featsWF n'.feats = true ∧ NormOk n' ∧ n'.fin = .no := by
+  induction evs generalizing n with
+  | nil => exact ⟨n, [], rfl, rfl, hw, hok, hno⟩
+  | cons e es ih =>
+    simp only [SafeRun, Bool.and_eq_true] at hs
+    simp only [StartsRun, Bool.and_eq_true] at hc
+    cases hh : n.handle e with
+    | none => simp [hh] at hs
+    | some r =>
+      obtain ⟨n1, out⟩ := r
+      simp only [hh] at hs hc
+      obtain ⟨hrun1, hw1, hok1, hno1⟩ := handle_seq n n1 e out hok hw hno (hnf e (by simp)) hs.1 hc.1 hh
+      obtain ⟨n', outs, hrun, hseq, hw', hok', hno'⟩ := ih n1 hok1 hw1 hno1 (fun x hx => hnf x (by simp [hx])) hs.2 hc.2
+      refine ⟨n', out :: outs, by simp [normRun, hh, hrun], ?_, hw', hok', hno'⟩
+      rw [flatten_cons, seqRun_append, hrun1]
+      exact hseq
+
+/-- **T2 over a whole run.** For a contract-abiding stream `pre ++ [Finished]` everything `Normalize`
+    forwards, taken together, is accepted by the strict sequential automaton: one feature open at a time,
+    one rule or top-level attempt inside it, one attempt inside a rule, each attempt contiguous from its
+    `Started` to its `Finished`, brackets properly nested, run-Finished last. -/
+theorem norm_T2_sequential (pre : List Ev) (hnf : ∀ e ∈ pre, e ≠ Ev.finished)
+    (hs : SafeRun Norm.init (pre ++ [Ev.finished]) = true) (hc : StartsRun Norm.init (pre ++ [Ev.finished]) = true) :
+    ∃ n outs, normRun Norm.init (pre ++ [Ev.finished]) = some (n, outs) ∧ Cuke.Mon.seqOk outs.flatten = true := by
+  obtain ⟨hs1, hs2⟩ := safeRun_append Norm.init pre [Ev.finished] hs
+  have hc1 : StartsRun Norm.init pre = true ∧
+      ∀ n' outs, normRun Norm.init pre = some (n', outs) → StartsRun n' [Ev.finished] = true := by
+    clear hs hs1 hs2 hnf
+    generalize Norm.init = n0 at hc ⊢
+    induction pre generalizing n0 with
+    | nil => exact ⟨rfl, fun n' outs h => by simp only [normRun, Option.some.injEq, Prod.mk.injEq] at h; rw [← h.1]; exact hc⟩
+    | cons e es ih =>
+      simp only [cons_append, StartsRun, Bool.and_eq_true] at hc
+      cases hh : n0.handle e with
+      | none => simp [hh] at hc
+      | some r =>
+        obtain ⟨n1, out⟩ := r
+        simp only [hh] at hc
+        obtain ⟨i1, i2⟩ := ih n1 hc.2
+        refine ⟨by simp [StartsRun, hc.1, hh, i1], ?_⟩
+        intro n' outs hrun
+        simp only [normRun, hh] at hrun
+        cases hr : normRun n1 es with
+        | none => simp [hr] at hrun
+        | some r2 =>
+          obtain ⟨n2, outs2⟩ := r2
+          simp only [hr, Option.some.injEq, Prod.mk.injEq] at hrun
+          rw [← hrun.1]
+          exact i2 n2 outs2 hr
+  obtain ⟨n1, outs1, hr1, hseq1, hw1, hok1, hno1⟩ :=
+    norm_T2_from Norm.init pre (by simp [NormOk, Norm.init]) (by simp [featsWF, Norm.init]) (by simp [Norm.init]) hnf hs1 hc1.1
+  have hs3 := hs2 n1 outs1 hr1
+  simp only [SafeRun, Bool.and_eq_true] at hs3
+  cases hh : n1.handle Ev.finished with
+  | none => simp [hh] at hs3
+  | some r =>
+    obtain ⟨n2, out⟩ := r
+    have hrun : normRun Norm.init (pre ++ [Ev.finished]) = some (n2, outs1 ++ [out]) := by
+      rw [normRun_append, hr1]; simp [normRun, hh]
+    refine ⟨n2, outs1 ++ [out], hrun, ?_⟩
+    -- the last call: everything still queued is closed, so the queue empties and run-Finished follows
+    have hh' := hh
+    unfold Norm.handle at hh'
+    have hem' : (n1.fin == Fin.emitted) = false := by rw [hno1]; rfl
+    simp only [hem', Bool.false_eq_true, if_false, Norm.insert, beq_self_eq_true, if_true, Option.some.injEq,
+      Prod.mk.injEq] at hh'
+    obtain ⟨_, rfl⟩ := hh'
+    have hsafe := hs3.1
+    simp only [safeStep, hem', Bool.false_or, Bool.and_eq_true, beq_self_eq_true, Bool.not_true, Bool.false_or] at hsafe
+    have hnil := emitFeats_all_closed n1.feats hok1 hsafe.2
+    obtain ⟨hrunE, _⟩ := emitFeats_seq n1.feats hok1 hw1
+    rw [hnil] at hrunE
+    rw [seqOk_iff, flatten_append, seqRun_append]
+    have h0 : featsSt Norm.init.feats = {} := rfl
+    rw [h0] at hseq1
+    rw [hseq1]
+    simp only [flatten_cons, flatten_nil, append_nil, Option.bind_some, Ev.isRunLevel, Bool.false_eq_true, if_false,
+      nil_append]
+    rw [seqRun_append, hrunE]
+    simp [featsSt, seqRun_cons, seqRun_nil, seqStep]
+
 /-! ## The whole run -/
 
 /-- run-Finished has not been seen: the queue is still open -/
@@ -460,6 +610,10 @@ def exStream : List Ev :=
    .scen kb none .finished, .ruleFinished 2 5, .featFinished 2, .scen ka none .finished, .featFinished 1, .finished]
 
 example : SafeRun Norm.init exStream = true := by decide +kernel
+example : StartsRun Norm.init exStream = true := by decide +kernel
+/-- T2 on the interleaved example -/
+example : (normRun Norm.init exStream).map (fun r => seqOk r.2.flatten) = some true ∧ seqOk exStream = false := by
+  decide +kernel
 example : (normRun Norm.init exStream).map (fun r => r.2.flatten) =
     some [.started, .featStarted 1, .scen ka none .started, .scen ka none .finished, .featFinished 1,
           .featStarted 2, .ruleStarted 2 5, .scen kb none .started, .scen kb none .finished, .ruleFinished 2 5,
